@@ -986,19 +986,15 @@ def _fuse_blocks_via_concat(
     # then we actually have to combine the groups of subsectors
 
     def _recurse_concat(new_sector, g=0, subkey=()):
-        if g in group_singlets:
-            # singlet group, no need to concatenate
-            new_subkey = subkey + ((new_sector[position + g],),)
-            if g == num_groups - 1:
-                return new_blocks[new_sector][new_subkey]
-            else:
-                return _recurse_concat(new_sector, g + 1, new_subkey)
-
-        # else fused group of multiple axes
         new_charge = new_sector[position + g]
-        extent = new_indices[position + g].subinfo.extents[new_charge]
-        # given the current partial sector, get next possible charges
-        next_subkeys = [(*subkey, subsector) for subsector in extent]
+        if g in group_singlets:
+            # singlet group, only one possible 'subsector'
+            next_subkeys = [(*subkey, (new_charge,))]
+        else:
+            # else fused group of multiple axes
+            extent = new_indices[position + g].subinfo.extents[new_charge]
+            # given the current partial sector, get next possible charges
+            next_subkeys = [(*subkey, subsector) for subsector in extent]
 
         if g == num_groups - 1:
             # final group (/level of recursion), get actual arrays
@@ -1013,7 +1009,11 @@ def _fuse_blocks_via_concat(
                         for ax in axes_before
                     )
                     shape_new = (
-                        new_indices[position + gg].subinfo.extents[
+                        new_indices[position + gg].size_of(
+                            new_sector[position + gg]
+                        )
+                        if gg in group_singlets
+                        else new_indices[position + gg].subinfo.extents[
                             new_sector[position + gg]
                         ][ss]
                         for gg, ss in enumerate(new_subkey)
